@@ -121,13 +121,17 @@ func (store *BaseStore[E]) GetSymbol(name string) EntitySymbol {
 }
 
 func (store *BaseStore[E]) createCompositeEntitySymbol(name string, first linkedEntitySymbol, rest EntitySymbol) EntitySymbol {
-	ces, ok := rest.(compositeEntitySymbol)
 	var chain []EntitySymbol
-	if !ok {
-		chain = []EntitySymbol{first, rest}
-	} else {
+	if ces, ok := rest.(compositeEntitySymbol); ok {
 		chain = []EntitySymbol{first}
 		chain = append(chain, ces.getChain()...)
+	} else if nsc, ok := rest.(*nonSetCompositeEntitySymbol); ok {
+		// walk the links of a non-set chain one by one, so that a set in front of it iterates the
+		// entities the whole path leads to (cursor keys, linked type and sub-query rows included)
+		chain = []EntitySymbol{first}
+		chain = append(chain, nsc.chain...)
+	} else {
+		chain = []EntitySymbol{first, rest}
 	}
 
 	noneSet := true
